@@ -55,8 +55,18 @@ func c12AddExtraImport(f *gen.File, p string) {
 	f.ExtraImports = append(f.ExtraImports, gen.Import{Path: p})
 }
 
+// c12AnyLit is the text-format literal of an Any holding an empty t. The compiler accepts two hosts in the type URL;
+// which one is written is a function of the type name (about one literal in three uses the second).
 func c12AnyLit(t string) string {
-	return fmt.Sprintf("{ [type.googleapis.com/%s]: {} }", t)
+	h := 0
+	for i := 0; i < len(t); i++ {
+		h += int(t[i])
+	}
+	host := "type.googleapis.com"
+	if h%3 == 0 {
+		host = "type.googleprod.com"
+	}
+	return fmt.Sprintf("{ [%s/%s]: {} }", host, t)
 }
 
 // c12Generate builds the workload of one case.
